@@ -62,6 +62,7 @@ type h3 struct {
 	nextSim int
 	stop    bool
 	cfgHook func(n *simNode, c *Config)
+	baseConfig func() *Config // when set, servers are configured from this instead of NewDefaultConfig (and telemetry is left as it says)
 	verbose bool
 	logHits map[string]int // server log messages of interest, counted over all servers
 	client  *nats.Conn
@@ -86,6 +87,9 @@ func (h *h3) do(node int, name string, f func()) (crashed bool) {
 
 func (h *h3) config(n *simNode, peers []string) *Config {
 	c := NewDefaultConfig()
+	if h.baseConfig != nil {
+		c = h.baseConfig()
+	}
 	c.DataDir = n.dir
 	c.Clustering.ServerID = n.id
 	c.Clustering.Namespace = "sim"
@@ -98,7 +102,9 @@ func (h *h3) config(n *simNode, peers []string) *Config {
 		c.LogSilent = false
 	}
 	c.EmbeddedNATS = false
-	c.Telemetry.Enabled = false
+	if h.baseConfig == nil {
+		c.Telemetry.Enabled = false
+	}
 	c.CursorsStream.Partitions = 0
 	c.ActivityStream.Enabled = false
 	if h.cfgHook != nil {
